@@ -63,7 +63,18 @@ fn interesting_i64(r: &mut StdRng) -> i64 {
     }
 }
 fn interesting_f64(r: &mut StdRng) -> f64 {
-    match r.random_range(0..9) {
+    // "arbitrary f64 constants ... exponents spanning the whole supported range": the ends of the format too (seed C07_e:
+    // subnormal doubles carry their leading one anywhere in the 52-bit field), any finite bit pattern, signed zero
+    match r.random_range(0..12) {
+        9 => {
+            let m = f64::from_bits(r.random_range(1..(1u64 << 52)) >> r.random_range(0..52));
+            if r.random_bool(0.5) { -m } else { m }
+        }
+        10 => [f64::MIN_POSITIVE, f64::MAX, -0.0, f64::EPSILON, f64::from_bits(1), 1e-322, f64::MIN_POSITIVE * 1.5, -f64::MIN_POSITIVE / 2.0, f64::MIN][r.random_range(0..9)],
+        11 => {
+            let f = f64::from_bits(r.random::<u64>());
+            if f.is_finite() { f } else { 1.0 }
+        }
         0 => 0.7,
         1 => 0.9,
         2 => 0.0,
